@@ -154,9 +154,25 @@ def r17_3(cx):
     cx.require(errs and oks, 'read_n_impl no longer builds both Ok and Err')
     # the error slot: the Option<io::Error> local passed to Option::replace
     reps = list(fn.calls('Option::replace'))
-    cx.check(len(reps) == 1, 'last-error', fn, reps[0].loc() if reps else None, 'every error is stored with Option::replace (overwrites the previous one)',
-             fail_detail='expected one Option::replace storing the error, found %d' % len(reps))
+    # ... or the plain assignment `err = Some(e)` to the one Option<io::Error> local (also overwrites the previous one)
+    direct = [(pos, st) for pos, st in fn.statements() if st['k'] == 'assign' and not st['pl']['p'] and st['rv']['k'] == 'agg' and st['rv'].get('variant') == 'Some'
+              and 'Option<std::io::Error>' in fn.locals[st['pl']['l']].replace('core::', 'std::') and st['pl']['l'] != 0] if not reps else []
+    cx.check(len(reps) == 1 or len(direct) == 1, 'last-error', fn, reps[0].loc() if reps else None, 'every error is stored in the one error slot (overwrites the previous one)',
+             fail_detail='expected one Option::replace (or one `slot = Some(e)`) storing the error, found %d' % (len(reps) + len(direct)))
     slot = None
+    if not reps and len(direct) == 1:
+        dpos, dst = direct[0]
+        payload = fn.operand_expr(dst['rv']['ops'][0]).strip()
+        from_this_read = payload.kind == 'proj' and any(k.pos == rd.pos for k in payload.calls())
+        on_err = any(e.kind == 'discr' and val == ('in', frozenset([1])) and any(k.pos == rd.pos for k in e.calls()) for e, val, ed in fn.facts_at(dpos.bb))
+        cx.check(from_this_read and on_err, 'error-payload', fn, fn.loc(dpos.bb, dpos.idx), 'the stored error is the Err payload of this read call, on its Err edge',
+                 fail_detail='the stored error is not the payload of the failing read')
+        slot = dst['pl']['l']
+        # (`err = Some(e)` on a local that needs dropping goes through a temporary: tmp = Some(e); drop(err); err = move tmp)
+        moved = [st2['pl']['l'] for pos2, st2 in fn.statements() if st2['k'] == 'assign' and not st2['pl']['p'] and st2['rv']['k'] == 'use'
+                 and st2['rv']['o'].get('k') == 'move' and not st2['rv']['o']['pl']['p'] and st2['rv']['o']['pl']['l'] == slot]
+        if len(moved) == 1:
+            slot = moved[0]
     if reps:
         rp = reps[0]
         a0 = rp.t['args'][0]
@@ -183,7 +199,7 @@ def r17_3(cx):
             rel = as_relation((e, val))
             if rel and rel[0] == 'Eq' and (rel[1].is_const_int(0) or rel[2].is_const_int(0)) and any(k.pos == rd.pos for k in e.calls()):
                 zero = True
-            if e.kind == 'discr' and val == ('in', frozenset([1])) and not list(e.calls()):
+            if e.kind == 'discr' and val == ('in', frozenset([1])) and (not list(e.calls()) or (e.a is not None and e.a.strip().kind in ('phi', 'local') and e.a.strip().info.get('l') == slot)):
                 some = True
         cx.check(zero and some, 'err-only-when-nothing-read', fn, fn.loc(pos.bb, pos.idx), 'Err(e) only where got == 0 and the error slot is Some',
                  fail_detail='Err can be returned although bytes were delivered, or without a stored error (got==0: %s, slot Some: %s)' % (zero, some))
